@@ -87,6 +87,15 @@ impl Space for Validity {
         let model = if valid { Ok(f) } else { Err(ErrorKind::Range) };
         let got = call(|| dur10(f));
         out.lockstep("Duration::new", &model, &got, |m, d| dur_fields(d) == *m, attrs);
+        // the constructors of the two parts and the conversions of a part into a duration, on the same limit values
+        if f[..4].iter().all(|v| *v == 0.0) {
+            let got = call(|| TimeDuration::new(ff(f[4]), ff(f[5]), ff(f[6]), ff(f[7]), ff(f[8]), ff(f[9])).map(|t| dur_fields(&Duration::from(t))));
+            out.lockstep("TimeDuration::new, Duration::from(TimeDuration)", &model, &got, |m, d| *d == *m, attrs);
+        }
+        if f[4..].iter().all(|v| *v == 0.0) {
+            let got = call(|| DateDuration::new(ff(f[0]), ff(f[1]), ff(f[2]), ff(f[3])).map(|t| dur_fields(&Duration::from(t))));
+            out.lockstep("DateDuration::new, Duration::from(DateDuration)", &model, &got, |m, d| *d == *m, attrs);
+        }
         if let Oc::Ok(d) = &got {
             if valid {
                 // signed-number behaviour
